@@ -82,10 +82,6 @@ Definition par_nonemptyb (c : fchart) : bool :=
                     | _, _ => true
                     end) (seq 0 (nstates c)).
 
-(* every listed transition index is a transition (needed only to read H1 off Spec.diag) *)
-Definition trans_rangeb (c : fchart) : bool :=
-  forallb (fun s => forallb (fun ti => ti <? ntrans c) (fs_trans (st c s))) (seq 0 (nstates c)).
-
 (* strictly ascending *)
 Fixpoint ascb (l : list nat) : bool :=
   match l with
